@@ -87,6 +87,16 @@ def run(ctx):
             ctx.count(f"yastn-error:{str(e)[:40]}")
 
 
+def operand_snapshot(a):
+    return (a._data.tobytes(), a.struct, a.slices, a.trans, a.mfs, a.hfs)
+
+
+def operand_unchanged(ctx, a, snap0, what, case):
+    """a factorisation returns new tensors; its operand must be bit-identical afterwards (otherwise the factors do not reproduce 'the input')"""
+    if operand_snapshot(a) != snap0:
+        ctx.fail("oracle", "c04:operand-modified", f"{what} modified its operand (data or structure changed)", case=case, concrete=True)
+
+
 def describe(a, axes, **kw):
     return {"sym": a.config.sym.SYM_ID, "s": list(a.get_signature(native=True)), "n": list(a.n), "ndim": a.ndim, "trans": list(a.trans),
             "mfs": [list(m) for m in a.mfs], "nblocks": len(a.struct.t), "axes": [list(axes[0]), list(axes[1])], **kw}
@@ -105,10 +115,19 @@ def new_leg_checks(ctx, yastn, name, F, pos, s_expected, case, key):
 def do_svd(ctx, yastn, rng, cfg, sym, a, axes):
     sU = rng.choice([1, -1]); nU = rng.random() < 0.5
     k0, k1 = len(axes[0]), len(axes[1])
-    Uaxis = rng.choice([-1, rng.randint(0, k0)]); Vaxis = rng.choice([0, rng.randint(0, k1)])
+    Uaxis = rng.choice([-1, rng.randint(-(k0 + 1), k0)]); Vaxis = rng.choice([0, rng.randint(-(k1 + 1), k1)])
     case = describe(a, axes, sU=sU, nU=nU, Uaxis=Uaxis, Vaxis=Vaxis, which="svd")
     ctx.case(case, nontrivial=len(a.struct.t) >= 2)
+    snap0 = operand_snapshot(a)
     U, S, V = yastn.linalg.svd(a, axes=axes, sU=sU, nU=nU, Uaxis=Uaxis, Vaxis=Vaxis)
+    operand_unchanged(ctx, a, snap0, "svd", case)
+    # singular values alone: same numbers, operand untouched (LAPACK may work in place on the merged matrix, which can BE the operand's data)
+    if rng.random() < 0.5:
+        snap0 = operand_snapshot(a)
+        S1 = yastn.linalg.svd(a, axes=axes, sU=sU, nU=nU, compute_uv=False)
+        operand_unchanged(ctx, a, snap0, "svd(compute_uv=False)", case)
+        if S1.struct.t != S.struct.t or not np.allclose(np.asarray(S1._data), np.asarray(S._data), rtol=1e-9, atol=1e-12 * max(1.0, float(a.norm()))):
+            ctx.fail("oracle", "c04:svd:svdvals", "svd(compute_uv=False) returns singular values different from those of the full svd", case=case, concrete=True)
     zero = cfg.sym.zero()
     # ---- structure ------------------------------------------------------------------------------------
     if (U.n, V.n) != ((a.n, zero) if nU else (zero, a.n)) or S.n != zero:
@@ -164,10 +183,12 @@ def do_svd(ctx, yastn, rng, cfg, sym, a, axes):
 def do_qr(ctx, yastn, rng, cfg, sym, a, axes):
     sQ = rng.choice([1, -1])
     k0, k1 = len(axes[0]), len(axes[1])
-    Qaxis = rng.choice([-1, rng.randint(0, k0)]); Raxis = rng.choice([0, rng.randint(0, k1)])
+    Qaxis = rng.choice([-1, rng.randint(-(k0 + 1), k0)]); Raxis = rng.choice([0, rng.randint(-(k1 + 1), k1)])
     case = describe(a, axes, sQ=sQ, Qaxis=Qaxis, Raxis=Raxis, which="qr")
     ctx.case(case, nontrivial=len(a.struct.t) >= 2)
+    snap0 = operand_snapshot(a)
     Q, R = yastn.linalg.qr(a, axes=axes, sQ=sQ, Qaxis=Qaxis, Raxis=Raxis)
+    operand_unchanged(ctx, a, snap0, "qr", case)
     zero = cfg.sym.zero()
     if Q.n != a.n or R.n != zero:
         ctx.fail("oracle", "c04:qr:charge", f"qr: Q.n={Q.n} R.n={R.n}, input n={a.n}", case=case, concrete=True)
@@ -266,8 +287,8 @@ def do_eig(ctx, yastn, rng, cfg, sym, cplx, which):
     sU = rng.choice([1, -1])
     nU = rng.random() < 0.5
     nr, nc = len(rows), len(cols)
-    Uaxis = rng.choice([-1, -1, 0, rng.randint(0, nr)])
-    Vaxis = rng.choice([0, 0, -1, rng.randint(0, nc)])
+    Uaxis = rng.choice([-1, -1, 0, rng.randint(-(nr + 1), nr)])
+    Vaxis = rng.choice([0, 0, -1, rng.randint(-(nc + 1), nc)])
     case = describe(a, axes, sU=sU, which=which, nU=nU, Uaxis=Uaxis, Vaxis=Vaxis, fstate=fstate, lazy=lazy, perm=p, charged=bool(charged))
     ctx.case(case, nontrivial=len(a.struct.t) >= 2)
     ctx.count(f"eig:fstate:{fstate}"); ctx.count(f"eig:lazy:{lazy}"); ctx.count(f"eig:charged:{bool(charged)}")
@@ -278,12 +299,31 @@ def do_eig(ctx, yastn, rng, cfg, sym, cplx, which):
     def unf(x):   # undo the (one level of) fusion of rows / columns
         return x.unfuse_legs(axes=tuple(range(x.ndim))) if fstate != "none" else x
 
+    # a bipartition whose column legs are NOT the conjugates of the row legs in the same order is not a square (Hermitian) matrix on
+    # matching spaces: it has to be rejected, not decomposed
+    # (premise: same signature and different charge -> dimension maps, so that the two arrangements decompose the matrix space differently;
+    #  legs that differ in signature only, or not at all, give an arrangement the library cannot tell from a valid one)
+    if (k == 2 and fstate == "none" and legs[0].s == legs[1].s and set(zip(legs[0].t, legs[0].D)) != set(zip(legs[1].t, legs[1].D))
+            and rng.random() < 0.5):
+        bad_axes = (axes[0], (axes[1][1], axes[1][0]))
+        ctx.count(f"eig:misordered-columns:{which}")
+        try:
+            (yastn.linalg.eigh if which == "eigh" else yastn.linalg.eig)(a, axes=bad_axes, sU=sU)
+            ctx.fail("oracle", f"c04:{which}:accepts-misordered", f"{which} with column legs that are not the conjugated row legs in the same order "
+                     f"(axes={bad_axes}) was computed instead of being rejected", case=dict(case, axes=[list(bad_axes[0]), list(bad_axes[1])]), concrete=True)
+        except yastn.YastnError:
+            ctx.count("eig:misordered-columns:rejected")
+        except Exception as e:  # noqa: BLE001
+            ctx.fail("oracle", f"c04:{which}:misordered-exception", f"{which} with mis-ordered column legs raised {type(e).__name__} instead of YastnError: {e}",
+                     case=case, concrete=True)
+    snap0 = operand_snapshot(a)
     try:
         if which == "eigh":
             S, U = yastn.linalg.eigh(a, axes=axes, sU=sU, Uaxis=Uaxis)
             V = None
         else:
             U, S, V = yastn.linalg.eig(a, axes=axes, sU=sU, nU=nU, Uaxis=Uaxis, Vaxis=Vaxis)
+        operand_unchanged(ctx, a, snap0, which, case)
     except Exception as e:  # noqa: BLE001
         ctx.fail("oracle", f"c04:{which}:raises", f"{which} of a valid square matrix raised {type(e).__name__}: {e}", case=case, concrete=True)
         return
